@@ -6,7 +6,8 @@ import gens as G
 RULE = ("fault enumeration: every operation x every step of its exchange x replies from {empty, EVERY prefix length of a valid reply, "
         "random bytes of length 1..1024, a valid reply with single fields corrupted}; observed outcome class and frame count judged by "
         "Spec.c09ok / Spec.baseOk and compared with the model's outcome and frames; non-trivial = distinct (operation, step, fault "
-        "kind, outcome)")
+        "kind, outcome); plus histories good-operation ; operation-under-fault ; good-operation on ONE connection (an earlier success must "
+        "not help a later operation whose login is not answered)")
 ASSUMPTIONS = ["a scripted reader returns the chosen bytes at the chosen step (on a real socket an empty read means end of stream); "
                "well-formed configuration and clock < 2^32 (else the login frame itself cannot be built)"]
 
@@ -37,6 +38,46 @@ FAULT = C.Kind("op-under-fault", impl=H.run_case, model=H.model_line, judge=_jud
                nontrivial=lambda c, o: (c["req"]["op"], _fault_kind(c), H.outcome_of(o).split(" u:")[0][:40]),
                shrink=lambda c: [dict(c, replies=c["replies"][:-1])] if len(c["replies"]) > 1 else [])
 KINDS = {"op-under-fault": FAULT}
+
+
+# ---- the same faults in the middle of a connection's life: an operation that succeeded before must not help a later one ----------
+
+import histharness as HH  # noqa: E402
+
+
+def _judge_hist(hist, out):
+    lines = []
+    for inst, outs in zip(hist["instances"], HH.split_history_output(hist, out)):
+        for op, o in zip(inst["ops"], outs):
+            lines += _judge({"req": op["req"], "replies": op["replies"]}, o)
+    return lines
+
+
+HIST = C.Kind("fault-after-success", impl=HH.run_history, model=HH.model_lines, assemble=HH.assemble, judge=_judge_hist,
+              classify=lambda h, o: "+".join(op["req"]["op"] + ":" + op.get("_fault", "none").split("@")[0] for op in h["instances"][0]["ops"])[:60],
+              nontrivial=lambda h, o: tuple((op["req"]["op"], op.get("_fault", "none")) for op in h["instances"][0]["ops"]),
+              shrink=lambda h: [dict(h, instances=[dict(h["instances"][0], ops=h["instances"][0]["ops"][:i] + h["instances"][0]["ops"][i + 1:])])
+                                for i in range(len(h["instances"][0]["ops"])) if len(h["instances"][0]["ops"]) > 1])
+KINDS["fault-after-success"] = HIST
+
+
+def _histories(rng, n):
+    """[an operation that succeeds] ; [an operation under fault] ; [the first one again], all on ONE connection"""
+    out = []
+    ops = [o for o in G.ALL_OPS if o != "createsched"]     # create_schedule reads the clock twice: single-operation streams only
+    while len(out) < n:
+        op = rng.choice(ops)
+        faulty = [c for c in _faults(rng, op, full=False) if c["_fault"].split("@")[0] in ("empty", "prefix")]
+        c = rng.choice(faulty)
+        t2 = op in H.TYPE2_OPS
+        good_op = rng.choice(["stop", "getshutter", "setpos"] if t2 else ["getState", "control", "getschedules"])
+        g, _ = _base_case(rng, good_op)
+        t = float(rng.randrange(1_600_000_000, 1_900_000_000))
+        mk = lambda case, at, tag: {"now": at, "req": case["req"], "replies": case["replies"], "_fault": tag}  # noqa: E731
+        g2, _ = _base_case(rng, good_op)
+        out.append({"tz": "UTC", "schedule": [], "instances": [{"did": c["did"], "key": c["key"], "api": "type2" if t2 else "type1",
+                    "ops": [mk(g, t, "none"), mk(c, t + 7, c["_fault"]), mk(g2, t + 20, "none")]}]})
+    return out
 
 
 def _base_case(rng, op):
@@ -126,6 +167,8 @@ def streams(ctx):
         valid = bytes.fromhex(c["replies"][1])
         pref += [_with(c, 1, valid[:n].hex() if n else "-", "prefix") for n in range(0, len(valid) + 1)]
     ctx.run_cases(FAULT, "every-prefix-of-valid-state-replies", pref, exhaustive=True, sample_every=90)
+    hs = _histories(rng, ctx.n(150, 3000))
+    ctx.run_cases(HIST, "fault-after-a-successful-operation-on-the-same-connection", hs, exhaustive=False, sample_every=max(1, len(hs) // 3))
 
 
 def search(ctx, broken):
